@@ -121,7 +121,8 @@ def run_histories(ctx, rng, N, maxlen):
         if kind == "cross" or name in ("POP", "OPA", "ExtendedEOF", "HilbertEOF", "ComplexEOF", "SparsePCA"):
             dsets = dsets[:4]            # plain DataArrays of different shapes / structures
         # exact solver and a fixed seed: two fits of equal data must be comparable
-        make = (lambda: sp.make(2, use_pca=False, solver="full", random_state=7)) if kind == "cross" else (lambda: sp.make(2, solver="full", random_state=7))
+        pca_kw = dict(use_pca=True, n_pca_modes="all") if (i // len(names)) % 2 else dict(use_pca=False)
+        make = (lambda: sp.make(2, solver="full", random_state=7, **pca_kw)) if kind == "cross" else (lambda: sp.make(2, solver="full", random_state=7))
         m = make()
         L = int(rng.integers(3, maxlen + 1))
         hist = []
